@@ -27,7 +27,27 @@ TmpBody(op, p) ==
     [] op \in {"SendGroupMessageAck", "GroupShortDataAck"} -> p.ip \o p.res
 TmpPayload(op, p) == (IF p.has_opt THEN U16(Len(p.opt)) ELSE <<>>) \o p.req \o TmpBody(op, p) \o (IF p.has_opt THEN p.opt ELSE <<>>)
 
+\* ---- RCP (radio_control_protocol.py): all integers LITTLE-endian.  Fields prepared by the harness:
+\*   ct call type, res result, tgt / snd target / sender id (4 octets, little-endian), mode / status / svc repeater mode, status and
+\*   service type (16 bit), bt broadcast type, iptgt id/ip selector, raw opaque octets, fmt / alias talker alias format and data,
+\*   settings sequence of <<target, setting>> pairs, sct / scv status change target and 16-bit value
+L16(n) == <<n % 256, n \div 256>>
+Flatten(pairs) == IF pairs = <<>> THEN <<>> ELSE LET RECURSIVE F(_) F(i) == IF i > Len(pairs) THEN <<>> ELSE pairs[i] \o F(i + 1) IN F(1)
+RcpPayload(op, p) ==
+  CASE op \in {"UnknownService", "ZoneAndChannelOperationRequest", "ZoneAndChannelOperationReply", "BroadcastStatusConfigurationRequest"} -> p.raw
+    [] op = "CallRequest" -> <<p.ct>> \o p.tgt
+    [] op \in {"CallReply", "BroadcastMessageConfigurationReply", "StatusChangeNotificationReply", "BroadcastStatusConfigurationReply"} -> <<p.res>>
+    [] op = "RepeaterBroadcastTransmitStatus" -> L16(p.mode) \o L16(p.status) \o L16(p.svc) \o L16(p.ct) \o p.tgt \o p.snd
+    [] op = "BroadcastMessageConfigurationRequest" -> <<p.bt, 0, 0, 0, 0, 0, 0, 0>>
+    [] op = "RadioIDAndRadioIPQueryReply" -> <<p.res, p.iptgt>> \o p.raw
+    [] op = "RadioIDAndRadioIPQueryRequest" -> <<p.iptgt>>
+    [] op = "SendTalkerAliasRequest" -> <<p.ct>> \o p.snd \o p.tgt \o <<p.fmt, Len(p.alias)>> \o p.alias
+    [] op = "SendTalkerAliasReply" -> <<p.res, p.ct>> \o p.snd \o p.tgt
+    [] op = "StatusChangeNotificationRequest" -> <<Len(p.settings)>> \o Flatten(p.settings)
+    [] op = "RadioStatusReport" -> <<p.sct>> \o L16(p.scv)
+
 Payload(fam, op, p) == CASE fam = "RRS" -> RrsPayload(op, p) [] fam = "LP" -> LpPayload(op, p) [] fam = "TMP" -> TmpPayload(op, p)
+                         [] fam = "RCP" -> RcpPayload(op, p)
 
 \* second octet of the frame for TMP: confirmed 0x80, option 0x40
 TmpFlags(p) == (IF p.confirmed THEN 128 ELSE 0) + (IF p.has_opt THEN 64 ELSE 0)
